@@ -59,6 +59,7 @@ for gcda in glob.glob(os.path.join(covdir, '*.gcda')):
             m = lines.setdefault(path, {})
             for ln in f.get('lines', []):
                 m[ln['line_number']] = m.get(ln['line_number'], 0) + ln['count']
+json.dump({os.path.relpath(p, V.REPO): {str(l): c for l, c in m.items()} for p, m in lines.items()}, open(os.path.join(V.BUILD, 'coverage-lines.json'), 'w'))   # read by tools/mutate.py
 tot = unc = 0
 for path in sorted(lines):
     src = open(path, errors='replace').read().splitlines()
